@@ -1256,7 +1256,8 @@ def pick_operand(tw, r, spec, length):
         return imm(r.choice([None, None, 0, "", (), False, 0.0, b"", frozenset()]))
     if spec == "kwname":
         # keyword names that coincide with parameter names a proxy's own methods might use
-        return imm(r.choice(["x", "self", "_self", "args", "kwargs", "cls", "name", "obj", "handler", "proxy", "key", "self", "_self"]))
+        return imm(r.choice(["x", "self", "_self", "args", "kwargs", "cls", "name", "obj", "handler", "proxy", "key", "self", "_self"]
+                            + proxy_parameter_names()))
     if spec == "attrname":
         if k == "pairs" and tw.config_name == "default":
             return imm(r.choice(PAIRS_DEFAULT_ATTRS))
@@ -1795,6 +1796,16 @@ def caller_side_comparison_observation():
 KEYWORD_NAMES = ["_self", "self", "args", "kwargs", "name", "cls"]
 
 
+def proxy_parameter_names():
+    """the NAMED parameters of the functions `netref._make_method` makes, read off their signatures (see c01)"""
+    from props import c01
+    return c01.proxy_parameter_names()
+
+
+def keyword_names():
+    return KEYWORD_NAMES + [n for n in proxy_parameter_names() if n not in KEYWORD_NAMES]
+
+
 def keyword_names_case(config_name):
     """every way a call with keyword arguments reaches a target through a proxy, with keyword names a proxy's own
     methods might have taken for themselves: obj(**kw), obj.__call__(**kw), a bound method of a builtin that accepts
@@ -1814,7 +1825,7 @@ def keyword_names_case(config_name):
                 ("f(0, %s=1)", lambda w, n: w["f"](0, **{n: 1})),
                 ("f(_self=1, self=2, %s=3)", lambda w, n: w["f"](**dict({"_self": 1, "self": 2}, **{n: 3})))]
         from rpyc.core import brine
-        for name in KEYWORD_NAMES:
+        for name in keyword_names():
             for label, fn in ways:
                 (kp, vp), exp = outcome(lambda: fn(prox, name))
                 if exp is not None and is_policy_denial(exp):
